@@ -1193,7 +1193,7 @@ class EdgeQLSourceGenerator(codegen.SourceGenerator):
                                 ''
                             )
                             return (
-                                typeutils.not_none(c.name.itemclass),
+                                c.name.itemclass or '',
                                 c.name.name,
                                 subject_expr,
                                 except_expr,
@@ -1211,7 +1211,7 @@ class EdgeQLSourceGenerator(codegen.SourceGenerator):
                                 ''
                             )
                             return (
-                                typeutils.not_none(c.name.itemclass),
+                                c.name.itemclass or '',
                                 c.name.name,
                                 expr,
                                 except_expr,
